@@ -6,7 +6,8 @@ From Coq Require Import String Ascii Bool Arith List.
 From LV Require Import Base.Prelude Cfg.Grammar Earley.Spec Forest.ExplicitToTree Forest.ExplicitCheck Forest.ExplicitToTree_proofs
   Forest.ExplicitBuild Forest.ExplicitBuild_proofs Forest.ExplicitBuildCheck
   Earley.Alg Earley.Alg_proofs Forest.ExplicitAlgBuild Forest.ExplicitAlgBuild_proofs
-  Earley.Dyn Forest.ExplicitDynBuild Forest.ExplicitDynSound Forest.ExplicitDynBuild_proofs.
+  Earley.Dyn Earley.Dyn_proofs Forest.ExplicitDynBuild Forest.ExplicitDynSound Forest.ExplicitDynBuild_proofs
+  Forest.ExplicitDynFamilies_proofs.
 Import ListNotations.
 Local Open Scope string_scope.
 Local Open Scope list_scope.
@@ -193,11 +194,13 @@ Proof. repeat split; vm_compute; reflexivity. Qed.
        follow any child - then every tree stored below a node consists of rule applications whose leaves are token
        edges and whose leaf spans, joined by ignore paths, tile the node's span: it spells the input.  The decidable
        checker dfam_okb implies the local form.
-   _partial: that every family logged by the model has that form is not proved as a theorem about the model; on every
-   run Coq evaluates the checker on the model's whole log, which at the same time must equal, as a set, the log of all
-   SymbolNode.add_family calls of the real dynamic / dynamic_complete parse (stream dyn-families), the position graph
-   being computed by re.fullmatch on slices of the text.  Completeness w.r.t. Dyn's chart over the position graph is
-   left to the derivation oracle of the ignore / acyclic streams. *)
+   That every family logged by the model has that form is theorem (3) below (C04_A_dynamic_families_sound), so the
+   soundness is unconditional for the model (C04_A_dynamic_model_sound); the model is tied to lark on every run by the
+   stream dyn-families (log of all SymbolNode.add_family calls of real dynamic / dynamic_complete parses = the model's
+   log, as sets, on recorded regex answers; the checker is also evaluated on the whole log against a position graph
+   computed by re.fullmatch).  Completeness w.r.t. Dyn's chart over the position graph is proved for the families of
+   predict_and_complete (C04_A_dynamic_complete_partial below); for the scanner's token families and the carry-over
+   copies it stays with the stream and the derivation oracle of the ignore / acyclic streams. *)
 Theorem C04_A_dynamic_erasure G start n rmatch rtrunc complete_lex ignore :
   fst (idyn_parse G start n rmatch rtrunc complete_lex ignore) = dyn_parse G start n rmatch rtrunc complete_lex ignore.
 Proof. exact (dyn_erasure G (pred_lookup G (pred_table G)) start n rmatch rtrunc complete_lex ignore). Qed.
@@ -217,11 +220,54 @@ Theorem C04_A_dynamic_sound_checked (G : grammar) te ig (fams : list (nlabel nat
 Proof. intros H Hd. exact (dyn_forest_sound G te ig fams H _ _ Hd). Qed.
 Print Assumptions C04_A_dynamic_sound_checked.
 
-Definition C04_A_dynamic_families_full_statement : Prop :=
-  forall G start n rmatch rtrunc complete_lex ignore te ig,
-    (forall t i e, In e (ends_of rmatch rtrunc complete_lex t i) -> tokedge_b te t i e = true) ->
-    (forall x i e, In x ignore -> rmatch x i = Some e -> ign_b ig i e = true) ->
-    forallb (dfam_okb G te ig) (snd (idyn_parse G start n rmatch rtrunc complete_lex ignore)) = true.
+(* (3) The invariant of the run: every family the instrumented dynamic model logs has that local form over the
+   position graph of the run itself - token edge t i j iff j is one of the ends Dyn.ends_of puts into delayed_matches for
+   terminal t tried at i, ignore edge i j iff an ignored terminal matches from i to j.  A token entry adds
+   (advance item at i+1, (rule, node at the scan position, token node)) and the match table says the terminal matches
+   from the scan position to i+1: a token edge; a carried entry copies the families of (s, start, scan position) to
+   (s, start, i+1) along an ignore edge; predict_and_complete adds completer / held-completion families between chart
+   items (Dyn_proofs.gchart), an item with the dot at the start having only been carried over ignored text since it
+   was predicted.  Hence, unconditionally for the model: every tree stored below a node of its forest is built from
+   rule applications, its leaves are token edges, and the leaf spans joined by ignore paths tile the node's span. *)
+Theorem C04_A_dynamic_families_sound G start n rmatch rtrunc complete_lex ignore f :
+  In f (snd (idyn_parse G start n rmatch rtrunc complete_lex ignore)) ->
+  dfam_ok G (run_tokedge rmatch rtrunc complete_lex) (ign_edge rmatch ignore) (fst (span_fam f)) (snd (span_fam f)).
+Proof. exact (idyn_families_sound G start n rmatch rtrunc complete_lex ignore f). Qed.
+Print Assumptions C04_A_dynamic_families_sound.
+
+Theorem C04_A_dynamic_model_sound G start n rmatch rtrunc complete_lex ignore a i j ds :
+  den span (in_forest span (map span_fam (snd (idyn_parse G start n rmatch rtrunc complete_lex ignore)))) (NSym span a i j) ds ->
+  exists d, ds = [d] /\ dwfd G (run_tokedge rmatch rtrunc complete_lex) d (NT a)
+            /\ gtiles (run_tokedge rmatch rtrunc complete_lex) (ign_edge rmatch ignore) i j (yield span d).
+Proof. exact (idyn_model_sound_root G start n rmatch rtrunc complete_lex ignore a i j ds). Qed.
+Print Assumptions C04_A_dynamic_model_sound.
+
+(* Completeness for the dynamic model, _partial: the families of predict_and_complete.  For every column the run
+   builds, every completion between two items of the chart over the position graph (Dyn_proofs.gchart: originator y in
+   column i expecting a, completed item x of a in column k with origin i) has its family
+   (label of advance y at k, (rule, node of y at i, (a, i, k))) in the log - inside one column whichever of the two is
+   popped second adds it - and every completed empty rule has its (None, None) family.  Not proved: that the token
+   family of every scan step and every copy made by the carry-over is logged (it needs the delayed_matches invariant of
+   Dyn_proofs lifted to the instrumented entries, and the copy is of the first family per (left, right) only); the
+   dyn-families stream compares exactly these sets with lark on every run. *)
+Theorem C04_A_dynamic_complete_partial G start n rmatch rtrunc complete_lex ignore :
+  fwd rmatch rtrunc ->
+  (forall i k y x a,
+      gchart G start rmatch rtrunc complete_lex ignore i y -> expect y = Some (NT a) ->
+      gchart G start rmatch rtrunc complete_lex ignore k x -> expect x = None -> orig x = i -> lhs (irule x) = a ->
+      k < length (d_cols (fst (idyn_parse G start n rmatch rtrunc complete_lex ignore))) ->
+      In (comp_fam nat k i a y) (snd (idyn_parse G start n rmatch rtrunc complete_lex ignore)))
+  /\ (forall k x,
+      gchart G start rmatch rtrunc complete_lex ignore k x -> expect x = None -> dot x = 0 ->
+      k < length (d_cols (fst (idyn_parse G start n rmatch rtrunc complete_lex ignore))) ->
+      In (NSym nat (lhs (irule x)) (orig x) k, (irule x, None, None))
+         (snd (idyn_parse G start n rmatch rtrunc complete_lex ignore))).
+Proof.
+  intros Hf. split.
+  - exact (idyn_completion_families G start n rmatch rtrunc complete_lex ignore Hf).
+  - exact (idyn_empty_families G start n rmatch rtrunc complete_lex ignore Hf).
+Qed.
+Print Assumptions C04_A_dynamic_complete_partial.
 
 (* non-vacuity: start: X with %ignore " " on "x " (terminal 0 = X matches 0..1, terminal 1 = the ignored blank matches
    1..2): accepted; the family of (start, 0, 1) is copied to (start, 0, 2) by the carry-over; all families have the
